@@ -316,6 +316,33 @@ example :
   simp only [exMgrOps, List.mem_cons, List.not_mem_nil, or_false] at hx
   rcases hx with rfl | rfl | rfl | rfl | rfl | rfl | rfl | rfl | rfl | rfl | rfl | rfl | rfl <;> simp at hc
 
+/-! ### the `Epoch{id}` observation point of the manager -/
+
+/-- the current epoch is reported as stored -/
+theorem epoch_query_current (s : Mgr) : s.queryEpoch s.cur.id = .ok s.cur := by
+  unfold Mgr.queryEpoch; rw [if_pos rfl]
+
+/-- **an earlier epoch is reported with the start time it was created with** — after any history of
+    creation attempts (early, due, late, repeated) and hook management, at any block times, by any senders,
+    as long as the configuration was not replaced in between: `Epoch{id}` of the epoch that was current
+    before the history answers exactly that epoch. -/
+theorem epoch_query_reports_recorded_start (s : Mgr) (ops : List (Nat × Nat × MOp)) (hn : NoCfgOps ops) :
+    (s.reach ops).queryEpoch s.cur.id = .ok s.cur := by
+  obtain ⟨k, hk⟩ := Mgr.reach_ahead s ops hn
+  exact Mgr.queryEpoch_of_ahead hk
+
+/-- non-vacuity: the example history above has no configuration update, creates four epochs, and epoch 0 is
+    still reported as (0, 5000); why the hypothesis is there: after a duration change the query, which
+    only knows the current duration, misreports the earlier start (the code's behaviour, transcribed) -/
+example : NoCfgOps exMgrOps ∧ (exMgr.reach exMgrOps).cur.id = 4
+    ∧ (exMgr.reach exMgrOps).queryEpoch 0 = .ok ⟨0, 5000⟩
+    ∧ (exMgr.reach exMgrOps).queryEpoch 2 = .ok ⟨2, 5000 + 2 * exDay⟩
+    ∧ (exMgr.reach exMgrOps).queryEpoch 7 = .ok ⟨7, 5000 + 4 * exDay⟩
+    ∧ ((exMgr.reach exMgrOps).reach [(0, 0, .updateConfig { duration := 2 * exDay, genesis := 5000 })]).queryEpoch 3
+        = .ok ⟨3, 5000 + 2 * exDay⟩ := by
+  refine ⟨?_, by decide, by decide, by decide, by decide, by decide⟩
+  simp [NoCfgOps, exMgrOps]
+
 /-- the distributor right after `instantiate` with genesis 5·10^18 -/
 def exGenesis : Nat := 5000000000000000000
 def exDist : Dist := { owner := 0, cfg := { duration := exDay, genesis := exGenesis }, cur := { id := 0, start := 0 } }
